@@ -161,7 +161,7 @@ type ClientConfig struct {
 
 	// SlidingWindowFilterSize is the size of the sliding window filter.
 	//
-	// The default value is 256.
+	// The default value is 256. The maximum value is 1048576.
 	//
 	// Only applicable to Shadowsocks 2022 UDP.
 	SlidingWindowFilterSize uint64 `json:"slidingWindowFilterSize,omitzero"`
@@ -248,6 +248,9 @@ func (cc *ClientConfig) Initialize(tlsCertStore *tlscerts.Store, listenConfigCac
 
 	case "2022-blake3-aes-128-gcm", "2022-blake3-aes-256-gcm":
 		if err = ss2022.CheckPSKLength(cc.Protocol, cc.PSK, cc.IPSKs); err != nil {
+			return
+		}
+		if err = ss2022.CheckSlidingWindowFilterSize(cc.SlidingWindowFilterSize); err != nil {
 			return
 		}
 		cc.cipherConfig, err = ss2022.NewClientCipherConfig(cc.PSK, cc.IPSKs, cc.EnableUDP)
